@@ -1035,12 +1035,12 @@ fn check_polls(rep: &mut Report, what: &str, log: &[Ev], polls: &[PollRec]) {
                 _ => continue,
             };
             if w != p.w {
-                rep.t3("C12", &format!("{what}: inner future polled with waker {w} during the poll with waker {} ({e})", p.w));
+                rep.t3("C12", &format!("waker-identity: {what}: inner future polled with waker {w} during the poll with waker {} ({e})", p.w));
             }
             inner_pending |= pend;
         }
         if p.pending && !inner_pending {
-            rep.t3("C12", &format!("{what}: poll {} returned Pending although no inner future/service was pending with the current waker", p.w));
+            rep.t3("C12", &format!("pending-without-inner-pending: {what}: poll {} returned Pending although no inner future/service was pending with the current waker", p.w));
         }
     }
 }
@@ -1106,7 +1106,7 @@ fn run(a: &Args) {
                         Err(_) => None,
                     };
                     if got != Some(want) {
-                        rep.t3("C12", &format!("poll_ready of {ast} answered {res}, the conjunction of the inner services is {want:?}"));
+                        rep.t3("C12", &format!("ready-conj: poll_ready of {ast} answered {res}, the conjunction of the inner services is {want:?}"));
                     }
                     let mut ls = vec![];
                     leaves(ast, &mut ls);
@@ -1115,12 +1115,12 @@ fn run(a: &Args) {
                         if let Ev::Rdy(lid, lw, _) = e {
                             *seen.entry(*lid).or_default() += 1;
                             if *lw != id {
-                                rep.t3("C12", &format!("leaf {lid} poll_ready saw waker {lw}, current waker is {id}"));
+                                rep.t3("C12", &format!("waker-identity: leaf {lid} poll_ready saw waker {lw}, current waker is {id}"));
                             }
                         }
                     }
                     if seen.values().any(|c| *c > 1) {
-                        rep.t3("C12", "an inner service was polled for readiness twice within one poll_ready");
+                        rep.t3("C12", "ready-polled-twice: an inner service was polled for readiness twice within one poll_ready");
                     }
                     if matches!(r, Ok(Poll::Pending)) {
                         let mut any = false;
@@ -1129,13 +1129,13 @@ fn run(a: &Args) {
                                 if *rp > 0 {
                                     any = true;
                                     if !seen.contains_key(lid) {
-                                        rep.t3("C12", &format!("poll_ready of {ast} answered Pending but pending leaf {lid} was not polled with the current waker (lost wake-up)"));
+                                        rep.t3("C12", &format!("lost-wakeup: poll_ready of {ast} answered Pending but pending leaf {lid} was not polled with the current waker (lost wake-up)"));
                                     }
                                 }
                             }
                         }
                         if !any {
-                            rep.t3("C12", &format!("poll_ready of {ast} answered Pending although no inner service is pending"));
+                            rep.t3("C12", &format!("pending-without-inner-pending: poll_ready of {ast} answered Pending although no inner service is pending"));
                         }
                     }
                     sync_ast(ast);
@@ -1164,7 +1164,7 @@ fn run(a: &Args) {
                     let mut want_log = vec![];
                     let want = ref_call(ast, req, &mut want_log);
                     if r != Ok(Some(want)) {
-                        rep.t3("C11", &format!("call({req}) of {ast} resolved to {res}, the reference composition is {want:?}"));
+                        rep.t3("C11", &format!("composition-result: call({req}) of {ast} resolved to {res}, the reference composition is {want:?}"));
                     }
                     let got_log: Vec<Ev> = log
                         .iter()
@@ -1175,10 +1175,10 @@ fn run(a: &Args) {
                         })
                         .collect();
                     if got_log != want_log {
-                        rep.t3("C11", &format!("call({req}) of {ast}: stages/mappers ran as {} but the composition requires {} (each stage once, in order, after the previous one completed; each mapper once on the matching variant)", fmt_log(&got_log), fmt_log(&want_log)));
+                        rep.t3("C11", &format!("composition-trace: call({req}) of {ast}: stages/mappers ran as {} but the composition requires {} (each stage once, in order, after the previous one completed; each mapper once on the matching variant)", fmt_log(&got_log), fmt_log(&want_log)));
                     }
                     if REPOLL.with(|r| r.get()) {
-                        rep.t3("C12", &format!("call({req}) of {ast}: an inner future was polled again after it completed"));
+                        rep.t3("C12", &format!("poll-after-done: call({req}) of {ast}: an inner future was polled again after it completed"));
                     }
                     let mut calls: HashMap<u32, u32> = HashMap::new();
                     let mut lids = vec![];
@@ -1191,7 +1191,7 @@ fn run(a: &Args) {
                         }
                     }
                     if calls.values().any(|c| *c > 1) {
-                        rep.t3("C12", &format!("call({req}) of {ast}: a stage was invoked more than once"));
+                        rep.t3("C12", &format!("stage-twice: call({req}) of {ast}: a stage was invoked more than once"));
                     }
                     check_polls(&mut rep, &format!("call({req}) of {ast}"), &log, &polls);
                 }
@@ -1239,7 +1239,7 @@ fn run(a: &Args) {
                             _ => false,
                         };
                         if !agrees {
-                            rep.t3("C11", &format!("new_service({cfg}) of {f} resolved to {res}, the reference is {:?}", want.res.as_ref().map(|s| s.to_string())));
+                            rep.t3("C11", &format!("factory-result: new_service({cfg}) of {f} resolved to {res}, the reference is {:?}", want.res.as_ref().map(|s| s.to_string())));
                         }
                         let got_news: Vec<(u32, u32)> = log.iter().filter_map(|e| if let Ev::New(i, c) = e { Some((*i, *c)) } else { None }).collect();
                         // which factories are asked, and with what — not in which order
@@ -1249,13 +1249,13 @@ fn run(a: &Args) {
                             v
                         };
                         if sorted(&got_news) != sorted(&news) {
-                            rep.t3("C11", &format!("new_service({cfg}) of {f}: inner factories were asked {got_news:?}, expected each once with its config: {news:?}"));
+                            rep.t3("C11", &format!("factory-builds-once: new_service({cfg}) of {f}: inner factories were asked {got_news:?}, expected each once with its config: {news:?}"));
                         }
                         if agrees && polls.len() != want.pend as usize + 1 {
-                            rep.t3("C11", &format!("new_service({cfg}) of {f} resolved at poll {} but the first decisive inner result is at poll {}", polls.len(), want.pend + 1));
+                            rep.t3("C11", &format!("factory-first-error-poll: new_service({cfg}) of {f} resolved at poll {} but the first decisive inner result is at poll {}", polls.len(), want.pend + 1));
                         }
                         if REPOLL.with(|r| r.get()) {
-                            rep.t3("C12", &format!("new_service({cfg}) of {f}: an inner init future was polled again after it completed"));
+                            rep.t3("C12", &format!("poll-after-done: new_service({cfg}) of {f}: an inner init future was polled again after it completed"));
                         }
                         check_polls(&mut rep, &format!("new_service({cfg}) of {f}"), &log, &polls);
                         if let (Ok(Some(Ok(svc))), Ok(ast)) = (r, want.res) {
